@@ -357,8 +357,9 @@ pub fn fstr(x: f32) -> String {
     if x.abs() < 0.0001 {
         return "0".into();
     }
-    if x == (x as i32) as f32 {
-        return (x as i32).to_string();
+    // whole numbers are printed without a fraction (through a type wide enough for every f32 that still has unit steps)
+    if x.fract() == 0.0 && x.abs() < 1e15 {
+        return (x as i64).to_string();
     }
     let r = format!("{x:.3}");
     r.trim_end_matches('0').trim_end_matches('.').to_string()
@@ -402,7 +403,7 @@ fn lit() -> impl Strategy<Value = Ast> {
     prop_oneof![
         4 => (-20i32..=20).prop_map(|v| Ast::Num(v as f32)),
         3 => (-400i32..=400).prop_map(|v| Ast::Num(v as f32 / 8.0)),
-        1 => prop_oneof![Just(0.0f32), Just(1.0), Just(90.0), Just(45.0), Just(360.0), Just(0.5), Just(100.0), Just(-1.0)].prop_map(Ast::Num),
+        1 => prop_oneof![Just(0.0f32), Just(1.0), Just(90.0), Just(45.0), Just(360.0), Just(0.5), Just(100.0), Just(-1.0), Just(65536.0), Just(32768.0), Just(2147483648.0), Just(16777216.0)].prop_map(Ast::Num),
         2 => prop_oneof![Just("a"), Just("b"), Just("neg"), Just("half")].prop_map(|v| Ast::Var(v.to_string())),
     ]
 }
